@@ -637,7 +637,11 @@ def triage(ev, known):
     def has(ctxs, pred):
         return any(ctx in ctxs and any(pred(c) for c in v) for ctx, v in strs)
 
+    SHARED = ("rawLineEndInCdataSection", "rawLineEndInCommentOrPI", "charRefInCommentOrPI", "loneSurrogateWritten", "nonCharacterWritten")
+
     def hit(key):
+        if legacy and key in SHARED:            # FormatterToXML shares these classes; it is listed (and repaired) separately
+            key = "legacy" + key[0].upper() + key[1:]
         return key if key in known else None
 
     if ev["status"] == "error":
